@@ -125,6 +125,13 @@ CHECKS = {
         "validates every recorded outcome is ok/err.",
    note="exploration of a structured input space, not a proof over all byte strings",
    technique="TLC-enumerated mutation plans (Codec.tla) concretised on real encodings + random inputs; TLC validates recorded outcomes"),
+ "C20": dict(level="model_checking", ref="DESIGN.md §5 C20",
+   text="LogRing.tla specifies the snapshot as the last min(total, capacity) entries newest first, whichever logger wrote them; TLC "
+        "checks the specification at a scaled capacity and emits every behaviour of 4-5 steps with run sizes around the real "
+        "capacity; these, random histories and concurrent multi-goroutine runs (race detector) are executed on the real MemLogger "
+        "and every snapshot is validated by TLC.",
+   note="concurrent runs are judged by the order-independent suffix-interleaving rule; races by the Go race detector",
+   technique="TLA+ spec (LogRing.tla) + TLC-generated behaviours replayed into the Go code + TLC trace validation + race detector"),
 }
 
 NOT_APPLICABLE = []
